@@ -9,6 +9,7 @@ directive blocks:
     //@@ anchor: pub fn encode_length(&self, len: usize) -> io::Result<u8>
     //@@ ret: r                       (name the return value: `-> T` => `-> (r: T)`)
     //@@ rewrite: <regex> => <repl>   (must match at least once, logged)
+    //@@ rewrite-any: <regex> => <repl> || <regex> => <repl> ...   (alternatives: at least one must match)
     //@@ refuse: panic!               (macro invocations that become `refuse()`)
     //@@ strip-attrs                  (drop `#[..]` / `///` lines inside the item: enums)
     //@@ as-free-fn: <name>(<params>) -> <ret>   (trait-impl fn extracted as a free fn)
@@ -230,6 +231,7 @@ class Item:
         self.anchor = None
         self.ret = None
         self.rewrites = []
+        self.rewrite_any = []   # groups of alternatives: at least one of a group must match
         self.refuse = []
         self.strip_attrs = False
         self.as_free_fn = None
@@ -286,6 +288,12 @@ def parse_unit(text: str):
                 cur.anchor = d[7:].strip()
             elif d.startswith("ret:"):
                 cur.ret = d[4:].strip()
+            elif d.startswith("rewrite-any:"):
+                alts = []
+                for alt in d[len("rewrite-any:"):].split(" || "):
+                    a, b = alt.split("=>", 1)
+                    alts.append((a.strip(), b.strip()))
+                cur.rewrite_any.append(alts)
             elif d.startswith("rewrite:"):
                 a, b = d[8:].split("=>", 1)
                 cur.rewrites.append((a.strip(), b.strip()))
@@ -374,6 +382,18 @@ def extract_item(repo: Path, item: Item, log: list, linemap: list, out_line: int
             raise Undecided(f"lost anchor: rewrite `{pat}` matched nothing in {item.id}")
         sig, body = sig2, body2
         ilog.append(f"rewrite /{pat}/ -> `{repl}`: {k1 + k2} occurrence(s)")
+
+    for alts in item.rewrite_any:
+        hit = 0
+        for pat, repl in alts:
+            rx = re.compile(pat)
+            body2, k2 = rx.subn(repl, body)
+            if k2:
+                body = body2
+                hit += k2
+                ilog.append(f"rewrite (one of {len(alts)} alternatives) /{pat}/ -> `{repl}`: {k2} occurrence(s)")
+        if hit == 0:
+            raise Undecided(f"lost anchor: none of the alternative rewrites {[a for a, _ in alts]} matched in {item.id}")
 
     if item.as_free_fn:
         ilog.append(f"signature replaced: trait-impl fn extracted as free fn `{item.as_free_fn}` (Self -> concrete type by rewrite)")
